@@ -56,11 +56,8 @@ def encode_command(msg):
     if isinstance(msg, str):
         msg = bytearray(msg, 'utf-8')
     
-    try:
-        msg.index(b"\x00")
+    if b"\x00" in msg:
         raise ValueError("inline zero byte")
-    except Exception:
-        pass
     
     return msg + b"\x00"
 
